@@ -8,7 +8,7 @@ from enum import Enum
 from random import Random
 from qbee import expr
 from qbee.utils import Empty
-from .using import PrintUsingFormatter
+from .using import PrintUsingFormatter, PrintUsingError
 from .cpu import QvmCpu, QVM_DEVICES
 from .cell import CellType
 from .trap import TrapCode
@@ -319,10 +319,16 @@ class TerminalDevice(Device):
 
         if format_string:
             formatter = PrintUsingFormatter(format_string.value)
-            new_line = printables[-1] not in [comma, semicolon]
+            new_line = len(printables) == 0 or \
+                printables[-1] not in [comma, semicolon]
             printables = [a.value for a in printables
                           if a != semicolon and a != comma]
-            self.impl.terminal_print(formatter.format(printables))
+            try:
+                text = formatter.format(printables)
+            except PrintUsingError as e:
+                self.cpu.trap(TrapCode.INVALID_OPERAND_VALUE,
+                              desc=f'PRINT USING: {e}')
+            self.impl.terminal_print(text)
             if new_line:
                 self.impl.terminal_print('\r\n')
         else:
